@@ -104,6 +104,9 @@ func (m *C16) OnStep(w *ops.World, st *ops.Step) {
 			if !sameList(post.Dog.PendingUndel, pre.Dog.Mature[ePre]) {
 				m.S.Violate("pending-list-differs-from-queue", "undel", m.Hist, st.I, "epoch %d closed: pending undelegations %q, queue had %q", ePre, post.Dog.PendingUndel, pre.Dog.Mature[ePre])
 			}
+			if len(post.Dog.PendingOptOuts) > 0 {
+				m.S.Eval("closing-block-with-pending-optouts")
+			}
 			if !post.Dog.EpochEnd {
 				m.S.Violate("epoch-end-not-marked", "", m.Hist, st.I, "dogfood epoch %d closed but the epoch-end marker is not set", ePre)
 			}
@@ -242,6 +245,13 @@ func (m *C16) holdDecision(w *ops.World, st *ops.Step, chain string) {
 			return ok
 		}
 		removing := pre.Op.Removal[op+"|"+chain]
+		if pre.Dog.EpochEnd {
+			for _, po := range pre.Dog.PendingOptOuts {
+				if po == op {
+					m.S.Case("undelegation-in-the-block-that-matures-the-operators-opt-out")
+				}
+			}
+		}
 		cur := pre.Op.Fwd[op+"|"+chain]
 		prev := pre.Op.Prev[chain+"|"+op]
 		wantHold := uint64(0)
